@@ -731,6 +731,35 @@ func (env *SpecEnv) resolveType(e ast.Expr) types.Type {
 	return nil
 }
 
+// resolveTypeArg resolves a type argument of a modifies form: a type expression, or a string
+// literal "<package path relative to the module>.<TypeName>" naming a type of a package that
+// need not be imported by the contract's package (nil, true if that package is not loaded:
+// no object of the type can exist in the program under verification).
+func (env *SpecEnv) resolveTypeArg(a ast.Expr) (types.Type, bool) {
+	if lit, ok := a.(*ast.BasicLit); ok && lit.Kind == token.STRING {
+		s, _ := strconv.Unquote(lit.Value)
+		i := strings.LastIndex(s, ".")
+		if i < 0 {
+			specErr("type name %q: want <package>.<Type>", s)
+		}
+		path := env.ex.P.modulePath + "/" + s[:i]
+		p := env.ex.P.allPkgs[path]
+		if p == nil || p.Types == nil {
+			return nil, true
+		}
+		obj := p.Types.Scope().Lookup(s[i+1:])
+		if tn, ok := obj.(*types.TypeName); ok {
+			return tn.Type(), false
+		}
+		specErr("type %q not found", s)
+	}
+	t := env.resolveType(a)
+	if t == nil {
+		specErr("unknown type %s", exprStr(a))
+	}
+	return t, false
+}
+
 func (env *SpecEnv) call(x *ast.CallExpr) Value {
 	// special forms and library
 	if id, ok := x.Fun.(*ast.Ident); ok {
